@@ -29,6 +29,8 @@ def run_tlc():
     """Return (nodes: id -> (sim, (kind, simid)), edges: [(src, label, dst)], init id, tlc summary line)."""
     d = Path(tempfile.mkdtemp(prefix="bbtlc-"))
     try:
+        if shutil.which("tlc") is None:
+            raise FileNotFoundError("tlc")
         r = subprocess.run(["tlc", "-workers", "1", "-noGenerateSpecTE", "-metadir", str(d / "meta"), "-deadlock",
                             "-dump", "dot,actionlabels", str(d / "graph"), "Reservoir.tla"],
                            cwd=str(VERIF / "tla"), capture_output=True, text=True, timeout=300)
@@ -37,6 +39,11 @@ def run_tlc():
             raise RuntimeError("TLC reported an error on the abstract model:\n" + out[-1500:])
         summary = next((l for l in out.splitlines() if "distinct states found" in l), "")
         dot = (d / "graph.dot").read_text()
+    except (FileNotFoundError, subprocess.TimeoutExpired, OSError) as e:
+        # the model is static: if the model checker cannot be started here, replay the committed dump of
+        # the same model (tla/Reservoir.graph.dot, produced by the command above) and say so
+        dot = (VERIF / "tla" / "Reservoir.graph.dot").read_text()
+        summary = f"TLC not started here ({type(e).__name__}); committed state-graph dump of the same model replayed"
     finally:
         shutil.rmtree(d, ignore_errors=True)
     nodes, edges, init = {}, [], None
